@@ -26,48 +26,51 @@ theorem src_html_escape (h : html_escape_available = true) (cfg : Cfg)
   first
   | exact absurd h (by decide)
   | skip
-  have key : ∀ t, keysPlain t = true → ∀ body : PVal → PVal × PVal × PVal → PyM (ForInStep (PVal × PVal × PVal)),
-      (∀ c r x k v, body (.tuple [.str [c], .str r]) (.str x, k, v) = .ok (.yield (.str (replaceChar c r x), .str [c], .str r))) →
-      (do
-        let j ← pyJoin (PVal.str ['|']) (embTbl t)
-        let r ← reSearch j (PVal.str s)
-        if (!truthy r) = true then Except.ok (PVal.str s)
-        else do
-          let items ← pyItems (embTbl t)
-          let l ← pyIter items
-          let st ← forIn l (PVal.str s, PVal.none, PVal.none) body
-          Except.ok st.1 : PyM PVal) = .ok (.str (htmlEscapeT t s)) := by
-    intro t hk body hb
-    simp only [pyJoin_tbl, reSearch_tbl t hk, ok_bind, truthy_bool]
-    by_cases he : t = []
-    · subst he; simp [embTbl, htmlEscapeT, needsEscape, seqReplace]
-    · simp only [he, if_false]
-      by_cases hn : needsEscape t s = true
-      · simp only [hn, Bool.not_true, Bool.false_eq_true, if_false, embTbl, pyItems_dict, ok_bind, pyIter_list, List.map_map]
-        have := forIn_ok_inv (fun st : PVal × PVal × PVal => ∃ x, st.1 = .str x)
-          (t.map ((fun kv : Str × PVal => PVal.tuple [PVal.str kv.1, kv.2]) ∘ fun kv => ([kv.1], PVal.str kv.2)))
-          (PVal.str s, PVal.none, PVal.none) body
-          escStep ⟨s, rfl⟩
-          (by
-            intro a ha st ⟨x, hx⟩
-            obtain ⟨kv, _, rfl⟩ := List.mem_map.1 ha
-            obtain ⟨s1, k1, v1⟩ := st
-            simp only at hx; subst hx
-            simp [hb, escStep])
-        rw [this.1]
-        simp only [ok_bind]
-        have e := escape_fold t s .none .none
-        simp only [Function.comp_def] at e ⊢
-        simp [e, htmlEscapeT, hn]
-      · simp at hn
-        simp [hn, htmlEscapeT]
-  unfold html_escape
-  simp only [ok_bind, pure_eq_ok, truthy_bool]
-  cases attr
-  · simp only [Bool.false_eq_true, if_false, globalsOf]
-    exact key cfg.textTbl ht _ (by intros; simp)
-  · simp only [if_true, globalsOf]
-    exact key cfg.attrTbl ha _ (by intros; simp)
+  all_goals (
+    -- everything after the choice of the table, for any table, whatever the loop body is and whatever else the loop
+    -- state carries besides `text` (its first component)
+    have key : ∀ (ρ : Type) (r0 : ρ) (t : List (Char × Str)), keysPlain t = true →
+        ∀ body : PVal → PVal × ρ → PyM (ForInStep (PVal × ρ)),
+        (∀ (c : Char) (r x : Str) (rest : ρ), ∃ rest', body (.tuple [.str [c], .str r]) (.str x, rest)
+            = .ok (.yield (.str (replaceChar c r x), rest'))) →
+        (do
+          let j ← pyJoin (PVal.str ['|']) (embTbl t)
+          let r ← reSearch j (PVal.str s)
+          if (!truthy r) = true then Except.ok (PVal.str s)
+          else do
+            let items ← pyItems (embTbl t)
+            let l ← pyIter items
+            let st ← forIn l (PVal.str s, r0) body
+            Except.ok st.1 : PyM PVal) = .ok (.str (htmlEscapeT t s)) := by
+      intro ρ r0 t hk body hb
+      simp only [pyJoin_tbl, reSearch_tbl t hk, ok_bind, truthy_bool]
+      by_cases he : t = []
+      · subst he; simp [embTbl, htmlEscapeT, needsEscape]
+      · simp only [he, if_false]
+        by_cases hn : needsEscape t s = true
+        · simp only [hn, Bool.not_true, Bool.false_eq_true, if_false, embTbl, pyItems_dict, ok_bind, pyIter_list, List.map_map]
+          have sim := forIn_sim (fun (st : PVal × ρ) (b : Str) => st.1 = .str b) embErr
+            ((fun kv : Str × PVal => PVal.tuple [PVal.str kv.1, kv.2]) ∘ fun kv : Char × Str => ([kv.1], PVal.str kv.2)) t body
+            (fun kv b => (.ok (replaceChar kv.1 kv.2 b) : Except Err Str)) (PVal.str s, r0) s rfl
+            (by
+              intro kv _ st b hR
+              obtain ⟨s1, s2⟩ := st
+              simp only at hR; subst hR
+              obtain ⟨rest', hr⟩ := hb kv.1 kv.2 b s2
+              exact Sim.yield_ok _ hr rfl)
+          rw [seqReplace_foldlM] at sim
+          obtain ⟨st, hst, hR⟩ := sim
+          rw [hst]
+          simp [hR, htmlEscapeT, hn]
+        · simp at hn
+          simp [hn, htmlEscapeT]
+    unfold html_escape
+    simp only [ok_bind, pure_eq_ok, truthy_bool]
+    cases attr
+    · simp only [Bool.false_eq_true, if_false, globalsOf]
+      exact key _ _ cfg.textTbl ht _ (by intro c r x rest; obtain ⟨k, v⟩ := rest; exact ⟨_, by simp; rfl⟩)
+    · simp only [if_true, globalsOf]
+      exact key _ _ cfg.attrTbl ha _ (by intro c r x rest; obtain ⟨k, v⟩ := rest; exact ⟨_, by simp; rfl⟩))
 
 /-- `HTML.as_string()` returns the text -/
 theorem src_HTML_as_string (h : HTML_as_string_available = true) (G : Globals) (s : Str) :
